@@ -214,13 +214,16 @@ func instrumentDir(dir, outDir, virtDir string, harness bool, replace map[string
 	}
 	// type information (best effort) to recognise ranges over maps/channels
 	info := &types.Info{Types: map[ast.Expr]types.TypeAndValue{}, Selections: map[*ast.SelectorExpr]*types.Selection{}, Uses: map[*ast.Ident]types.Object{}, Defs: map[*ast.Ident]types.Object{}}
+	ownPkgs := map[*types.Package]bool{}
 	byPkg := map[string][]*ast.File{}
 	for _, p := range files {
 		byPkg[p.f.Name.Name] = append(byPkg[p.f.Name.Name], p.f)
 	}
 	for name, fs := range byPkg {
 		conf := types.Config{Importer: stubImporter{map[string]*types.Package{}}, Error: func(error) {}, FakeImportC: true}
-		conf.Check(name, fset, fs, info)
+		if pk, _ := conf.Check(name, fset, fs, info); pk != nil {
+			ownPkgs[pk] = true
+		}
 	}
 	for _, p := range files {
 		if p.skip {
@@ -232,6 +235,24 @@ func instrumentDir(dir, outDir, virtDir string, harness bool, replace map[string
 		r := &rewriter{fset: fset, info: info, file: p.name, stats: stats, harness: harness, noWrap: map[*ast.Ident]bool{}}
 		if !harness {
 			r.captured = capturedVars(p.f, info)
+			// package-level variables of goat's own packages are shared by every goroutine:
+			// their uses inside function bodies are accesses like those to captured locals
+			// (initialisers at package level run before any scheduler exists and stay as they are)
+			for id, obj := range info.Uses {
+				if v, ok := obj.(*types.Var); ok && !v.IsField() && v.Pkg() != nil && v.Parent() == v.Pkg().Scope() && ownPkgs[v.Pkg()] && id.Name != "_" {
+					r.captured[v] = true
+				}
+			}
+			for _, d := range p.f.Decls {
+				if gd, ok := d.(*ast.GenDecl); ok && gd.Tok == token.VAR {
+					ast.Inspect(gd, func(n ast.Node) bool {
+						if id, ok := n.(*ast.Ident); ok {
+							r.noWrap[id] = true
+						}
+						return true
+					})
+				}
+			}
 		}
 		r.file_(p.f)
 		if !r.changed && !harness {
@@ -263,13 +284,13 @@ type rewriter struct {
 	captured map[types.Object]bool // local variables referenced from a nested function literal
 	noWrap   map[*ast.Ident]bool   // identifiers on the left of := (declarations, not accesses)
 	harness  bool
-	fset    *token.FileSet
-	info    *types.Info
-	file    string
-	stats   map[string]int
-	changed bool
-	needRT  bool
-	tmp     int
+	fset     *token.FileSet
+	info     *types.Info
+	file     string
+	stats    map[string]int
+	changed  bool
+	needRT   bool
+	tmp      int
 }
 
 func (r *rewriter) site(n ast.Node) ast.Expr {
@@ -315,6 +336,28 @@ func (r *rewriter) file_(f *ast.File) {
 	f.Comments = nil
 	for i, d := range f.Decls {
 		f.Decls[i] = r.node(d).(ast.Decl)
+	}
+	if !r.harness {
+		// package-level variables are put back to their initial values before every execution,
+		// so that one execution cannot see what an earlier one left behind
+		var regs []ast.Stmt
+		for _, d := range f.Decls {
+			gd, ok := d.(*ast.GenDecl)
+			if !ok || gd.Tok != token.VAR {
+				continue
+			}
+			for _, sp := range gd.Specs {
+				for _, id := range sp.(*ast.ValueSpec).Names {
+					if id.Name != "_" {
+						regs = append(regs, &ast.ExprStmt{X: r.call("RegisterGlobal", &ast.UnaryExpr{Op: token.AND, X: ast.NewIdent(id.Name)})})
+						r.stats["globals"]++
+					}
+				}
+			}
+		}
+		if len(regs) > 0 {
+			f.Decls = append(f.Decls, &ast.FuncDecl{Name: ast.NewIdent("init"), Type: &ast.FuncType{Params: &ast.FieldList{}}, Body: &ast.BlockStmt{List: regs}})
+		}
 	}
 	for _, is := range f.Imports {
 		if path, _ := strconv.Unquote(is.Path.Value); path == rtBase+"vsched" {
